@@ -1,7 +1,9 @@
-"""Replays MockPatch.tla histories with the real asynq_mock.patch / patch.object on a scratch module (runs inside
-the build under test).  Nesting of with-blocks / decorated functions is realised by recursion: an `enter` of a
-block style opens a real `with` statement (or calls a really decorated function / test-class method) whose body
-replays the following operations until the matching exit operation."""
+"""Replays MockPatch.tla histories with the real asynq.mock.patch / patch.object on a scratch module (runs inside
+the build under test).  Nesting of with-blocks / decorated functions is realised by recursion: activating a
+block-style patcher opens a real `with` statement (or calls the really decorated function / test-class method)
+whose body replays the following operations until the exit operation of that block.  Patcher objects are kept,
+so that `reenter` activates THE SAME patcher (decorated function, test class, with-statement object, start())
+again; `rehold` re-creates the scratch module (new holders, new originals) under the same dotted names."""
 import asyncio
 import json
 import os
@@ -42,8 +44,12 @@ class Val(object):
 class State(object):
     def __init__(self):
         self.calls = []
-        self.stack = []  # (style, patcher, k)
-        self.values = {}
+        self.act = []      # active patcher numbers, activation order
+        self.pat = {}      # k -> dict(style, repl, target, patcher, run=callable that activates a block patcher)
+        self.objs = {}     # object id -> the replacement object handed to patch()
+        self.values = {}   # object id -> Val
+        self.keep = []
+        self.orig = {}
 
 
 ST = State()
@@ -70,6 +76,10 @@ def make_module():
     def fn(x, y=0):
         return rec(0, (x,), {"y": y})
 
+    @asynq_deco()
+    def fn2(x, y=0):
+        return rec(0, (x,), {"y": y})
+
     class Cls(object):
         @asynq_deco()
         def meth(self, x, y=0):
@@ -88,6 +98,7 @@ def make_module():
         attr = Val(0)
 
     mod.fn = fn
+    mod.fn2 = fn2
     mod.Cls = Cls
     sys.modules[MODNAME] = mod
     return mod
@@ -95,11 +106,25 @@ def make_module():
 
 TARGETS = {
     "modfn": (MODNAME + ".fn", lambda m: m, "fn"),
+    "modfn2": (MODNAME + ".fn2", lambda m: m, "fn2"),
     "meth": (MODNAME + ".Cls.meth", lambda m: m.Cls, "meth"),
     "cmeth": (MODNAME + ".Cls.cmeth", lambda m: m.Cls, "cmeth"),
     "smeth": (MODNAME + ".Cls.smeth", lambda m: m.Cls, "smeth"),
     "attr": (MODNAME + ".Cls.attr", lambda m: m.Cls, "attr"),
 }
+
+
+def targets_of(case):
+    return [case["target"], "modfn2"] if case.get("two") else [case["target"]]
+
+
+def install_module(case):
+    ST.mod = make_module()
+    ST.inst = ST.mod.Cls()
+    ST.orig = {}
+    for t in targets_of(case):
+        _, holder, attr = TARGETS[t]
+        ST.orig[t] = holder(ST.mod).__dict__[attr]
 
 
 class Recorder(object):
@@ -118,42 +143,51 @@ class CallObj(object):
         return rec(self.k, a, kw)
 
 
-def make_patcher(target, api, repl, k):
-    name, holder, attr = TARGETS[target]
-    args, kwargs = [], {}
+def replacement_object(repl, k):
+    """the object the caller hands to patch(); created once per object id, so that `share` reuses it"""
+    if k in ST.objs:
+        return ST.objs[k]
     if repl == "function":
         def replacement(*a, **kw):
             return rec(k, a, kw)
-        args = [replacement]
+        o = replacement
     elif repl == "boundmeth":
         ST.keep.append(Recorder(k))
-        args = [ST.keep[-1].method]
+        o = ST.keep[-1].method
     elif repl == "callobj":
-        args = [CallObj(k)]
+        o = CallObj(k)
+    else:
+        o = ST.values[k] = Val(k)
+    ST.objs[k] = o
+    return o
+
+
+def make_patcher(target, api, repl, k, share):
+    name, holder, attr = TARGETS[target]
+    args, kwargs = [], {}
+    if repl in ("function", "boundmeth", "callobj", "value"):
+        args = [replacement_object(repl, share or k)]
     elif repl == "newcallable":
         kwargs = {"new_callable": lambda: mock.MagicMock(side_effect=lambda *a, **kw: rec(k, a, kw))}
-    elif repl == "value":
-        ST.values[k] = Val(k)
-        args = [ST.values[k]]
     if api == "str":
         return asynq_mock.patch(name, *args, **kwargs)
     return asynq_mock.patch.object(holder(ST.mod), attr, *args, **kwargs)
 
 
-def configure(m, repl, k):
-    if repl == "default":
-        m.side_effect = lambda *a, **kw: rec(k, a, kw)
+def configure(m, P):
+    if P["repl"] == "default" and m is not None:
+        m.side_effect = lambda *a, **kw: rec(P["k"], a, kw)
 
 
 def slot_token(target):
     _, holder, attr = TARGETS[target]
     cur = holder(ST.mod).__dict__.get(attr, "absent")
-    if cur is ST.orig:
+    if cur is ST.orig[target]:
         return "orig"
     for k, v in ST.values.items():
         if cur is v:
             return "val%d" % k
-    if cur == "absent":
+    if isinstance(cur, str) and cur == "absent":
         return "absent"
     return "other"
 
@@ -162,6 +196,8 @@ def accessor(target):
     m = ST.mod
     if target == "modfn":
         return m.fn
+    if target == "modfn2":
+        return m.fn2
     if target == "meth":
         return ST.inst.meth
     if target == "cmeth":
@@ -192,6 +228,7 @@ def do_call(target, conv, x, y):
         else:
             r = "unknown convention"
     except BaseException as e:
+        asynq.scheduler.reset()
         return {"conv": conv, "raised": "%s: %s" % (type(e).__name__, e)}
     if len(ST.calls) != 1:
         return {"conv": conv, "reached": ST.calls, "result": repr(r)}
@@ -202,93 +239,124 @@ def do_call(target, conv, x, y):
     return {"conv": conv, "reach": c["reach"], "bound": c["bound"], "x": c["x"], "y": c["y"], "result": "agrees" if ok else repr(r)}
 
 
+def xval(t, n):
+    return 10 * t + n + 1
+
+
 def observe(case, i):
-    """the slot, and one call through every convention the model lists for this step (x = index, y = step)"""
-    target = case["target"]
-    convs = case["h"][i]["res"]["convs"]
-    return {"slot": slot_token(target), "calls": [do_call(target, c, n + 1, i + 1) for n, c in enumerate(convs)]}
+    """per target: the slot, and one call through every convention the model lists for this step"""
+    out = []
+    for t, target in enumerate(targets_of(case)):
+        convs = case["h"][i]["res"][t]["convs"]
+        out.append({"slot": slot_token(target), "calls": [do_call(target, c, xval(t, n), i + 1) for n, c in enumerate(convs)]})
+    return out
+
+
+def raised(e):
+    return {"raised": "%s: %s" % (type(e).__name__, e)}
+
+
+def activate(case, i, k, got):
+    """activation of patcher k by the operation at index i; returns the next index (None: history ended inside)"""
+    P = ST.pat[k]
+    ops = case["h"]
+    if P["style"] == "start":
+        try:
+            m = P["patcher"].start()
+        except Exception as e:
+            got[i] = raised(e)
+            raise Abort()
+        ST.act.append(k)
+        configure(m if P["repl"] in ("default", "newcallable") else None, P)
+        got[i] = observe(case, i)
+        return i + 1
+    box = {"i": i + 1, "how": "end", "entered": False}
+
+    def body(m):
+        box["entered"] = True
+        ST.act.append(k)
+        configure(m, P)
+        got[i] = observe(case, i)
+        box["i"], box["how"] = run(case, i + 1, got)
+        if box["how"] == "end":
+            cleanup_started()
+        if k in ST.act:
+            ST.act.remove(k)
+        if box["how"] == "exit_exception":
+            raise ExitExc()
+
+    P["body"] = body
+    try:
+        if P["style"] == "with":
+            with P["patcher"] as m:
+                body(m if P["repl"] in ("default", "newcallable") else None)
+        else:
+            P["run"]()
+    except ExitExc:
+        pass
+    except Abort:
+        raise
+    except Exception as e:
+        got[i if not box["entered"] else min(box["i"] - 1, len(ops) - 1)] = raised(e)
+        raise Abort()
+    if box["how"] == "end":
+        return None
+    got[box["i"] - 1] = observe(case, box["i"] - 1)
+    return box["i"]
+
+
+def create(case, o):
+    k = o["k"]
+    target = targets_of(case)[o["tgt"] - 1]
+    patcher = make_patcher(target, case["api"], o["repl"], k, o["share"])
+    P = {"k": k, "style": o["style"], "repl": o["repl"], "target": target, "patcher": patcher}
+    if o["style"] == "deco":
+        @patcher
+        def decorated(*mocks):
+            P["body"](mocks[0] if mocks else None)
+        P["run"] = decorated
+    elif o["style"] == "classdeco":
+        @patcher
+        class Tests(object):
+            def test_it(self, *mocks):
+                P["body"](mocks[0] if mocks else None)
+        P["run"] = lambda: Tests().test_it()
+    ST.pat[k] = P
 
 
 def run(case, i, got):
     """replays ops[i:] until the innermost open block is closed; returns (next index, how)"""
     ops = case["h"]
-    target = case["target"]
     while i < len(ops):
         o = ops[i]
         op = o["op"]
-        if op == "enter":
-            k, style, repl = o["k"], o["style"], o["repl"]
-            try:
-                patcher = make_patcher(target, case["api"], repl, k)
-                if style == "start":
-                    m = patcher.start()
-            except Exception as e:
-                got[i] = {"raised": "%s: %s" % (type(e).__name__, e)}
-                raise Abort()
-            if style == "start":
-                ST.stack.append((style, patcher, k))
-                configure(m, repl, k)
-                got[i] = observe(case, i)
-                i += 1
-                continue
-            box = {"i": i + 1, "how": "end"}
-
-            def body(m, i=i, box=box):
-                box["entered"] = True
-                ST.stack.append((style, patcher, k))
-                if m is not None:
-                    configure(m, repl, k)
-                got[i] = observe(case, i)
-                box["i"], box["how"] = run(case, i + 1, got)
-                if box["how"] == "end":
-                    cleanup_started()
-                ST.stack.pop()
-                if box["how"] == "exit_exception":
-                    raise ExitExc()
-
-            try:
-                if style == "with":
-                    with patcher as m:
-                        body(m if repl in ("default", "newcallable") else None)
-                elif style == "deco":
-                    @patcher
-                    def decorated(*mocks):
-                        body(mocks[0] if mocks else None)
-                    decorated()
-                elif style == "classdeco":
-                    @patcher
-                    class Tests(object):
-                        def test_it(self, *mocks):
-                            body(mocks[0] if mocks else None)
-                    Tests().test_it()
-            except ExitExc:
-                pass
-            except Abort:
-                raise
-            except Exception as e:
-                at = i if not box.get("entered") else min(box["i"] - 1, len(ops) - 1)
-                got[at] = {"raised": "%s: %s" % (type(e).__name__, e)}
-                raise Abort()
-            if box["how"] == "end":
+        if op in ("enter", "reenter"):
+            if op == "enter":
+                try:
+                    create(case, o)
+                except Exception as e:
+                    got[i] = raised(e)
+                    raise Abort()
+            i = activate(case, i, o["k"], got)
+            if i is None:
                 return len(ops), "end"
-            got[box["i"] - 1] = observe(case, box["i"] - 1)
-            i = box["i"]
             continue
         if op in ("exit_normal", "exit_exception"):
             return i + 1, op
         try:
             if op == "stop":
-                style, patcher, k = ST.stack.pop()
-                assert style == "start", "model/harness disagree: stop on a %s patch" % style
-                patcher.stop()
+                assert ST.pat[o["k"]]["style"] == "start", "model/harness disagree: stop on a block patch"
+                ST.act.remove(o["k"])
+                ST.pat[o["k"]]["patcher"].stop()
             elif op == "stopall":
-                while ST.stack and ST.stack[-1][0] == "start":
-                    ST.stack.pop()
+                ST.act = [k for k in ST.act if ST.pat[k]["style"] != "start"]
                 asynq_mock.patch.stopall()
+            elif op == "rehold":
+                install_module(case)
         except AssertionError:
             raise
         except Exception as e:
-            got[i] = {"raised": "%s: %s" % (type(e).__name__, e)}
+            got[i] = raised(e)
             raise Abort()
         got[i] = observe(case, i)
         i += 1
@@ -296,19 +364,19 @@ def run(case, i, got):
 
 
 def cleanup_started():
-    while ST.stack and ST.stack[-1][0] == "start":
-        _, p, _ = ST.stack.pop()
-        p.stop()
+    for k in reversed(list(ST.act)):
+        if ST.pat[k]["style"] == "start":
+            ST.act.remove(k)
+            try:
+                ST.pat[k]["patcher"].stop()
+            except Exception:
+                pass
 
 
 def run_case(case):
     asynq.scheduler.reset()
     ST.__init__()
-    ST.keep = []
-    ST.mod = make_module()
-    ST.inst = ST.mod.Cls()
-    _, holder, attr = TARGETS[case["target"]]
-    ST.orig = holder(ST.mod).__dict__[attr]
+    install_module(case)
     got = [None] * len(case["h"])
     try:
         run(case, 0, got)
@@ -322,24 +390,24 @@ def run_case(case):
 
 
 def matches(o, g, step):
-    """prescribed (o['res']) against observed"""
+    """prescribed (o['res'], one record per target) against observed"""
     if g == "skipped":
         return True
-    if g is None:
+    if not isinstance(g, list) or len(g) != len(o["res"]):
         return False
-    want = o["res"]
-    if want["slot"] != g.get("slot"):
-        return False
-    gc = g.get("calls") or []
-    if len(gc) != len(want["convs"]):
-        return False
-    for n, (conv, c) in enumerate(zip(want["convs"], gc)):
-        if conv == "read":
-            if c.get("slot") != want["slot"]:
-                return False
-            continue
-        if c.get("reach") != want["reach"] or c.get("x") != n + 1 or c.get("y") != step or c.get("result") != "agrees" or c.get("bound") != want["bound"]:
+    for t, (want, gt) in enumerate(zip(o["res"], g)):
+        if want["slot"] != gt.get("slot"):
             return False
+        gc = gt.get("calls") or []
+        if len(gc) != len(want["convs"]):
+            return False
+        for n, (conv, c) in enumerate(zip(want["convs"], gc)):
+            if conv == "read":
+                if c.get("slot") != want["slot"]:
+                    return False
+                continue
+            if c.get("reach") != want["reach"] or c.get("x") != xval(t, n) or c.get("y") != step or c.get("result") != "agrees" or c.get("bound") != want["bound"]:
+                return False
     return True
 
 
